@@ -48,6 +48,10 @@ def exceptions_enabled(facts, cls, member="m_out"):
 
 
 def check(run):
+    # staged bytes leave the encoder only through flush_buffer's write: nothing else resets the cursor, so a rotation cannot
+    # silently drop what was staged for the output it closes or opens (R06.4 imported)
+    from . import C06 as _C06
+    _C06.check_buffer_discipline(_C06._Renamed(run, {"R06.4": "R16.7"}))
     facts = run.facts
     cg = callgraph.CallGraph(facts)
     # ---------------- R16.1 raw write results
